@@ -1,7 +1,12 @@
+#![allow(dead_code)]
+mod corpus;
+mod dev;
 mod dl;
 mod framework;
 mod mon;
+mod reflua;
 mod rng;
+mod selftest;
 
 use framework::*;
 use std::path::PathBuf;
@@ -109,6 +114,7 @@ fn main() {
                 }
             })
         }
+        "dev" => run_with_big_stack(move || dev::main(&args[2..])),
         "selftest" => run_with_big_stack(|| mon::selftest()),
         _ => usage(),
     };
